@@ -18,15 +18,30 @@
 
   FULL STATEMENT (property text): for every history of filter, bind and pool create/update requests, under every
   interleaving, no step brings the number of addresses held under `pool__P_` above the size in force.
-  What is proved is this statement for every interleaving of `cstep` moves whose side condition `callowed` holds:
-    (a) reload / restart / pod-IP sync are not in the move set (the property quantifies over "filter, bind and
-        pool-update requests"; unbind, resync, API release, API truth and lister moves ARE in the move set);
-    (b) at every `bind` of a pod that carries a pool annotation the pod already owns an address for every request
-        (`bindOK`), i.e. the Filter that preceded the bind allocated it - which Filter does for a deployment pod
-        whenever it saw the Pool object.
-  (b) is NOT guaranteed by the code: `pool_never_exceeds_size_counter` shows the full statement false without it on
-  the model, and the same history breaks the real code (corpus/C07/d15.ops, DESIGN D15, known finding
-  bind-after-unsized-filter-exceeds-size).  Hence `pool_never_exceeds_size_partial`.
+  What is proved is this statement for every interleaving of `cstep` moves - two-phase filters, two-phase
+  pre-allocations and EVERY atomic move of the plugin model (filter, preempt, bind, event delivery, both resync forms,
+  API release, the pod-IP sync pass, administrator reservations, configuration reload, process restart, API truth and
+  lister moves; one failing apiserver call and one failing provider call per move) - whose side condition `callowed`
+  holds.  Four moves carry one:
+    (a) `bind`: the pod already owns an address for every request (`bindOK`: what a Filter that saw the Pool object
+        leaves behind, `filter_that_saw_pool_makes_bind_ok`; always true for pods without pool annotation), OR the
+        pod's pool is not a sized pool at that moment (`bindUnsized`: no Pool object of that name exists and nobody is
+        counting for it - then the step is reported as `unsizedBind`, the property speaks of sized pools only);
+    (b) `syncPodIPs`: the pass re-creates no record of a pool (`syncOK`);
+    (c) `reload`: every pool of the new configuration has a node subnet (the decoder's check) and no store object
+        orphaned by an earlier reload belongs to a pool (`orphanFree`); `restart`: `orphanFree`.
+  (a) and (b) are NOT guaranteed by the code - two genuine deviations, both confirmed on the real plugin:
+    * DESIGN D15 (`pool_never_exceeds_size_counter`, corpus/C07/d15.ops, known finding
+      bind-after-unsized-filter-exceeds-size): Bind allocates for a pod that owns nothing under its key without looking
+      at the size; a deployment pod owns nothing exactly when its Filter ran while the Pool object was not visible;
+    * the pod-IP sync pass (`sync_pass_counter`, corpus/C07/syncpodip.ops, known finding pool-exceeds-size:syncips):
+      `syncPodIP` re-creates the record of a Running pod of the (stale) lister whose address was released through the
+      API, without looking at the size.
+  Pods that are not deployment pods but carry a pool annotation (their key has the pool prefix, so they count as
+  members) are never handled by the sized branch of `getAvailableSubnet` and always allocate at bind: for them (a) holds
+  only while the pool is unsized.  The property text speaks of "scheduling pods of the deployments that share the pool",
+  so these pods are OUTSIDE the property; the harness monitor skips their binds for the same reason.
+  Hence `pool_never_exceeds_size_partial`.
 -/
 import Galaxy.Lemmas.C07Bridge
 
@@ -157,7 +172,24 @@ theorem bind_does_not_grow_when_filter_allocated (F : Plugin.Facts) (s : State) 
     (node : String) (ch : Choice) (fault pfault : Nat) (hok : bindOK s ns name ch = true) (P : String) (hne : P ≠ "") :
     cnt (step F s (.bind ns name uid node ch fault pfault)).1 P ≤ cnt s P := by
   rw [cnt_eq _ P hne, cnt_eq _ P hne]
-  exact (step_quiet F s (.bind ns name uid node ch fault pfault) hok (fun _ _ _ _ _ h => by cases h)).cnt P hne
+  have hok' : bindOK (withFaults s fault pfault) ns name ch = true := hok
+  exact ((withFaults_q s fault pfault).trans (bind_q F _ ns name uid node ch rfl hok')).cnt P hne
+
+/-- Everything else only keeps or lowers the count of every pool: event delivery, both resync forms, API release, the
+    administrator's reservations, a reload / restart without pool orphans, and a pod-IP sync pass that re-creates no pool
+    record - for every apiserver / provider fault index.  (`cs` carries the pending actions; none is needed here.) -/
+theorem other_moves_do_not_grow (F : Plugin.Facts) (s : State) (hc : Coherent s) (m : Move)
+    (hm : allowed { base := s } (.base m) = true)
+    (hnf : subnetPod s m = none) (hnb : ∀ ns name uid node ch f pf, m ≠ .bind ns name uid node ch f pf)
+    (P : String) (hne : P ≠ "") :
+    cnt (nextB PluginC07.facts F s m) P ≤ cnt s P := by
+  rw [fact_c07_shape, cnt_eq _ P hne, cnt_eq _ P hne]
+  have e := nextB_effect F { base := s } m hc hm
+  rcases e.eff P hne with h | ⟨pod, hsp, _⟩ | ⟨ns, name, uid, node, ch, f, pf, _, hb, _⟩
+  · exact h
+  · have hsp' : subnetPod s m = some pod := hsp
+    rw [hnf] at hsp'; cases hsp'
+  · exact absurd hb (hnb ns name uid node ch f pf)
 
 /-- The wording "every bind is preceded by a filter that saw the Pool object" and the state-level side condition of the
     theorems below are linked: a Filter of a deployment pod of a named pool whose Pool object is in the plugin's lister,
@@ -189,16 +221,33 @@ theorem reachable_invariant (F : Plugin.Facts) (c : Conf) (hwf : WFPools c.pools
 /-- "... never bring the number of IPs held under that pool above the size in force, no matter how many filter, bind
     and pool-update requests run concurrently": after ANY interleaving `ms` of two-phase filters, two-phase
     pre-allocations and atomic moves (side conditions `callowed`), ANY further move `m` leaves every pool `P` with
-    `cnt P ≤ max (cnt P before) (the size this step read)`; the size is 0 for every step that is not a Filter of a pod
-    of `P`, a pool request for `P`, or the second phase of one - i.e. all other steps add nothing. -/
+    `cnt P ≤ max (cnt P before) (the size this step read)`; the size is 0 for every step that is not a Filter / Preempt
+    of a pod of `P`, a pool request for `P`, or the second phase of one - i.e. all other steps add nothing.  The one
+    exception is reported by `unsizedBind`: a bind for a pod of `P` while no Pool object named `P` exists and nobody is
+    counting for `P` (not a sized pool). -/
 theorem pool_never_exceeds_size_partial (F : Plugin.Facts) (c : Conf) (hwf : WFPools c.pools) (ms : List CMove)
     (hok : callAllowed PluginC07.facts F (cinit c) ms = true) (m : CMove)
     (hm : callowed (crun PluginC07.facts F (cinit c) ms) m = true) (P : String) (hne : P ≠ "") :
+    unsizedBind (crun PluginC07.facts F (cinit c) ms) m P = true ∨
     cnt (cstep PluginC07.facts F (crun PluginC07.facts F (cinit c) ms) m).base P ≤
       max (cnt (crun PluginC07.facts F (cinit c) ms).base P) (sizeSeen (crun PluginC07.facts F (cinit c) ms) m P) := by
   have hinv := reachable_invariant F c hwf ms hok
   rw [fact_c07_shape] at hinv hm ⊢
   exact cstep_bound F _ m hinv hm P hne
+
+/-- the exception is about unsized pools only: the reported bind found no Pool object named `P` (API truth) -/
+theorem unsized_bind_has_no_pool_object (cs : CState) (m : CMove) (P : String) (h : unsizedBind cs m P = true) :
+    Tbl.get cs.base.poolObjs P = none := by
+  unfold unsizedBind at h
+  split at h
+  · split at h
+    · simp only [Bool.and_eq_true] at h
+      have := h.2
+      unfold poolIdle at this
+      simp only [Bool.and_eq_true, Option.isNone_iff_eq_none] at this
+      exact this.1
+    · cases h
+  · cases h
 
 /-- While a Filter or a pre-allocation sits between its count and its allocation on pool `P`, nobody else can start
     counting `P`: a second Filter of a pod of `P` / a second pool request for `P` is disabled until the first one has
@@ -285,5 +334,76 @@ theorem pool_never_exceeds_size_counter :
     cnt (crun PluginC07.facts Plugin.facts (cinit conf1) d15).base "p1" = 1 ∧
     cnt (cstep PluginC07.facts Plugin.facts (crun PluginC07.facts Plugin.facts (cinit conf1) d15) d15bind).base "p1" = 2 := by
   decide
+
+set_option maxRecDepth 100000 in
+/-- ... while the same bind BEFORE the Pool object is created is in the move set and is reported as a bind on an unsized
+    pool (the narrowed side condition: `bindOK` fails, `bindUnsized` holds) -/
+example : bindOK (crun PluginC07.facts Plugin.facts (cinit conf1) (d15.take 5)).base "ns1" "d1-x2" { pick := some 168427523 } = false ∧
+    callowed (crun PluginC07.facts Plugin.facts (cinit conf1) (d15.take 5)) d15bind = true ∧
+    unsizedBind (crun PluginC07.facts Plugin.facts (cinit conf1) (d15.take 5)) d15bind "p1" = true := by decide
+
+/-- the sync pass history (corpus/C07/syncpodip.ops): d1-x1 (Running) and d1-x2 fill pool p1 of size 2; d1-x1 is
+    deleted, its address goes back to the pool and is released through the API; the size is set to 1 = members; the pod
+    lister still shows d1-x1 Running -/
+def pool2 : Pool := { nodeSubnets := [⟨168362240, 24⟩], ranges := [(168427522, 168427523)], gateway := 168427521, bits := 24, vlan := 0 }
+def conf2 : Conf := { pools := [pool2], nodes := [("n1", 168362245)], provider := false }
+
+def syncHist : List CMove := [
+  .plain (.base (.scale .dp "ns1" "d1" 2)),
+  .plain (.base (.createPod "ns1" "d1-x1" .dp "d1" "p1" 0 [] true)),
+  .plain (.base (.createPod "ns1" "d1-x2" .dp "d1" "p1" 0 [] true)),
+  .plain (.apiPool "p1" 2 false [] [] 0),
+  .plain (.base (.listerSync true true)),
+  .plain (.base (.filter "ns1" "d1-x1" ["n1"] { pick := some 168427522 } 0)),
+  .plain (.base (.bind "ns1" "d1-x1" 1 "n1" {} 0 0)),
+  .plain (.base (.filter "ns1" "d1-x2" ["n1"] { pick := some 168427523 } 0)),
+  .plain (.base (.bind "ns1" "d1-x2" 2 "n1" {} 0 0)),
+  .plain (.base (.runPod "ns1" "d1-x1")),
+  .plain (.base (.listerSync true true)),
+  .plain (.base (.deletePod "ns1" "d1-x1")),
+  .plain (.base (.deliver 0 0 0)),
+  .plain (.base (.apiRelease 168427522 (poolKey "p1") 0 0)),
+  .plain (.apiPool "p1" 1 false [] [] 0),
+  .plain (.base (.listerSync false true)) ]
+
+def syncPass : CMove := .plain (.base (.syncPodIPs 0))
+
+set_option maxRecDepth 100000 in
+/-- WITHOUT side condition (b) the full statement is false: every move of `syncHist` satisfies its side condition, the
+    Pool object (API truth and lister) says size 1 and the pool has 1 member; the sync pass violates only `syncOK` - it
+    re-creates the released record of d1-x1, which the stale lister still shows Running - and takes the pool to 2
+    members.  The real code does the same (replay corpus/C07/syncpodip.ops; known finding pool-exceeds-size:syncips). -/
+theorem sync_pass_counter :
+    callAllowed PluginC07.facts Plugin.facts (cinit conf2) syncHist = true ∧
+    callowed (crun PluginC07.facts Plugin.facts (cinit conf2) syncHist) syncPass = false ∧
+    Tbl.get (crun PluginC07.facts Plugin.facts (cinit conf2) syncHist).base.poolObjs "p1" = some 1 ∧
+    Tbl.get (crun PluginC07.facts Plugin.facts (cinit conf2) syncHist).base.vPoolObjs "p1" = some 1 ∧
+    cnt (crun PluginC07.facts Plugin.facts (cinit conf2) syncHist).base "p1" = 1 ∧
+    cnt (cstep PluginC07.facts Plugin.facts (crun PluginC07.facts Plugin.facts (cinit conf2) syncHist) syncPass).base "p1" = 2 := by
+  decide
+
+/-- reload, restart, the sync pass, preempt and an administrator's reservation inside a history: after the pool is
+    full a sync pass finds every Running pod's address allocated, a restart rebuilds the tables, a reload of the same
+    pools is a no-op, Preempt of a pod of the full pool allocates nothing -/
+def good2 : List CMove := [
+  .plain (.base (.scale .dp "ns1" "d1" 3)),
+  .plain (.base (.createPod "ns1" "d1-x1" .dp "d1" "p1" 0 [] true)),
+  .plain (.base (.createPod "ns1" "d1-x2" .dp "d1" "p1" 0 [] true)),
+  .plain (.apiPool "p1" 1 false [] [] 0),
+  .plain (.base (.listerSync true true)),
+  .plain (.base (.filter "ns1" "d1-x1" ["n1"] { pick := some 168427522 } 0)),
+  .plain (.base (.bind "ns1" "d1-x1" 1 "n1" {} 0 0)),
+  .plain (.base (.runPod "ns1" "d1-x1")),
+  .plain (.base (.listerSync true true)),
+  .plain (.base (.syncPodIPs 0)),
+  .plain (.base .restart),
+  .plain (.base (.reload [pool2] 0)),
+  .plain (.base (.preempt "ns1" "d1-x2" ["n1"] {} 0)),
+  .plain (.base (.adminReserve 168427523 "ops" 2)),
+  .plain (.base (.syncPodIPs 1)) ]
+
+set_option maxRecDepth 100000 in
+example : callAllowed PluginC07.facts Plugin.facts (cinit conf2) good2 = true ∧
+    cnt (crun PluginC07.facts Plugin.facts (cinit conf2) good2).base "p1" = 1 := by decide
 
 end Galaxy.Props.C07
